@@ -459,6 +459,10 @@ SPECS["C11"] = {
          "what": "2 events on two different sinks, 2 workers", "reach": ["quiescent"],
          "quick": {"params": {"SINKS": 2, "EVENTS": 2, "P": 1}, "two_pass": True, "unwind": 60, "wall_s": 900},
          "thorough": {"params": {"SINKS": 2, "EVENTS": 2, "P": 2}, "two_pass": True, "unwind": 60, "wall_s": 3000}},
+        {"name": "H1-wildcard-layout", "pkg": "interpreter", "files": _C11, "fn": "VerifC11Sinks",
+         "what": "2 events of sibling kinds x.a / x.b on two sinks, next to 0..3 sinks on the wildcard pattern x.* (shared parts of the rule index), 2 workers", "reach": ["quiescent"],
+         "quick": {"params": {"SINKS": 2, "EVENTS": 2, "P": 1, "WILD": 4}, "two_pass": True, "pass1_preempt": 1, "unwind": 60, "wall_s": 900},
+         "thorough": {"params": {"SINKS": 2, "EVENTS": 2, "P": 2, "WILD": 4}, "two_pass": True, "pass1_preempt": 1, "unwind": 60, "wall_s": 3000}},
         {"name": "H3-ecal-report", "pkg": "interpreter", "files": _C11, "fn": "VerifC11EcalReport",
          "what": "ECAL addEventAndWait on an event that fans out to two events on one sink (failing flags symbolic), 2 workers: the result seen by ECAL code, entry by entry", "reach": ["evaluated"],
          "quick": {"params": {"P": 1}, "two_pass": True, "unwind": 60, "wall_s": 900},
@@ -506,9 +510,13 @@ SPECS["C15"] = {
          "quick": {"params": {"CMDS": 16}, "unwind": 60, "wall_s": 900},
          "thorough": {"params": {"CMDS": 24}, "unwind": 60, "wall_s": 3000}},
         {"name": "H5-console-races", "pkg": "interpreter", "files": _C15, "fn": "VerifC15ConsoleRaces",
-         "what": "a console goroutine issues 2 of 9 debugger commands while a program thread runs: data races on the debugger's bookkeeping (happens-before pass, confirmed with go test -race)", "reach": ["both-done"],
+         "what": "a console goroutine issues 2 of 11 debugger commands while a program thread runs: data races on the debugger's bookkeeping (happens-before pass, confirmed with go test -race)", "reach": ["both-done"],
          "quick": {"params": {"P": 1}, "two_pass": True, "unwind": 60, "wall_s": 900},
          "thorough": {"params": {"P": 2}, "two_pass": True, "unwind": 60, "wall_s": 3000}},
+        {"name": "H5-console-deadlocks", "pkg": "interpreter", "files": _C15, "fn": "VerifC15ConsoleRaces",
+         "what": "same console and program thread with a pre-emption at ANY sync operation (sync.RWMutex modelled with writer preference): no command dead-locks with a running thread", "reach": ["both-done"],
+         "quick": {"params": {"P": 1, "SYNC": 1}, "unwind": 60, "wall_s": 900},
+         "thorough": {"params": {"P": 2, "SYNC": 1}, "unwind": 60, "wall_s": 3000}},
         {"name": "H5-console-races-mutex", "pkg": "interpreter", "files": _C15, "fn": "VerifC15ConsoleRaces",
          "what": "same with a program that enters two mutex blocks (the console's lockstate result refers to the interpreter's mutex tables)", "reach": ["both-done"],
          "quick": None,
